@@ -153,7 +153,9 @@ fn surviving(sc: &Script, n_red: u32, n_mw: u32) -> Vec<(u32, EffSpec)> {
 pub fn execute(c: &ECfg, seed: u64) -> W {
     let ctx = Ctx::new_opts(ScriptSrc::Table(c.scripts.clone()), 3, seed, c.perturb, false, true);
     let w = W::new(ctx, vec![StoreCfg { policy: POL_BLOCK, cap: c.cap, n_red: c.n_red, n_mw: c.n_mw, name: "rsve".into(), ctor: 0 }]);
-    let keep = w.add_direct(0, NOGATE, false, true, false);
+    let released = std::sync::Arc::new(Counter::new());
+    let r2 = released.clone();
+    let keep = w.add_direct_sub(0, true, |sub| sub.unsub_counter = Some(r2));
     // programs and what they are expected to cause
     let mut rng = Rng::new(mix(seed, 555));
     let mut progs: Vec<Vec<Act>> = Vec::new();
@@ -255,7 +257,12 @@ pub fn execute(c: &ECfg, seed: u64) -> W {
         } else {
             w.ctx.gates[1].open();
         }
-        w.stop(0, STOP_STOP);
+        let ms = w.stop(0, STOP_STOP);
+        if ms >= 2500 {
+            // every gate was open before stop() was invoked, yet it ran into its timeout: let whatever
+            // is still going on finish (the loop's last act is releasing the subscribers)
+            released.wait_at_least(1, 20);
+        }
         if cfg!(miri) {
             for _ in 0..20 {
                 std::thread::yield_now();
@@ -282,6 +289,15 @@ pub fn c11(h: &Hist, s: u8, v: &mut Verdicts) {
     let sh = &h.st[s as usize];
     v.evaluated.insert("C11");
     if stop_timed_out(h, s) {
+        // in this family nothing is parked or slow once stop() is invoked: a stop() that gives up and leaves
+        // work to run after it has returned is a violation (natively; Miri's virtual clock is not a stopwatch)
+        if let Some(sr) = first_stop(h, s) {
+            let late = h.evs.iter().find(|e| e.store == s && e.seq > sr.ret && matches!(e.k, K::RBeg | K::MBeg | K::SBeg | K::EBeg));
+            if let (Some(e), false, true) = (late, cfg!(miri), sr.ret != INF) {
+                v.fail("C11", format!("store {}: stop() gave up after {} ms (its timeout) although no effect or callback was parked or slow, and work accepted before it went on after it had returned: {} for {} at seq {} (stop() returned at seq {})", s, sr.ms, e.k.name(), id_str(e.a), e.seq, sr.ret));
+                return;
+            }
+        }
         v.inconcl("C11", "stop() hit its timeout".into());
         return;
     }
